@@ -418,7 +418,7 @@ else:
 out.append(nat.dfa_json_of(D) == before)
 print(json.dumps(out))
 ''' % ('/verif', json.dumps(rp['D']), which, json.dumps(rp.get('D2', rp['D'])))
-    outs = {s: _sub(code, s) for s in range(0, 8)}
+    outs = {s: _sub(code, s) for s in range(0, rp.get('_seeds', 8))}
     vals = set(outs.values())
     mutated = any(v.endswith('false]') for v in vals)
     if len(vals) > 1 or mutated or any(v.startswith('ERR') for v in vals):
@@ -442,6 +442,25 @@ print(json.dumps(out))
             ok, detail = _replay_two_runs(dict(rp, D=P, _padded=True))
             if ok:
                 detail['padded input (unreachable duplicates added)'] = P
+                return True, detail
+        # second amplification: the solver says the result depends on the iteration order of some set, which CPython does
+        # not vary for this few states; look for a larger witness of the same dependence: seeded random non-minimal DFAs
+        # with 6 states (every state reachable along a cycle) over the same alphabet, each run under 8 hash seeds
+        import random
+        rng = random.Random(20260929)
+        cands = []
+        for n_ in (6, 9, 12):        # non-minimal, every state reachable: a: i -> i+1, b: i -> 2i (mod n), accepting: 3 | i
+            Q = ['s%d' % i for i in range(n_)]
+            cands.append({'Q': Q, 'Sigma': ['a', 'b'], 'q0': Q[0], 'F': [q for i, q in enumerate(Q) if i % 3 == 0],
+                          'delta': [[Q[i], 'a', Q[(i + 1) % n_]] for i in range(n_)] + [[Q[i], 'b', Q[(2 * i) % n_]] for i in range(n_)]})
+        for trial in range(4):
+            Q = ['s%d' % i for i in range(6)]
+            cands.append({'Q': Q, 'Sigma': ['a', 'b'], 'q0': Q[0], 'F': [q for i, q in enumerate(Q) if i % 2 == trial % 2],
+                          'delta': [[Q[i], 'a', Q[(i + 1) % 6]] for i in range(6)] + [[q, 'b', rng.choice(Q)] for q in Q]})
+        for P in cands:
+            ok, detail = _replay_two_runs(dict(rp, D=P, _padded=True, _seeds=12))
+            if ok:
+                detail['larger witness of the same order dependence'] = P
                 return True, detail
     return False, {'results by PYTHONHASHSEED': outs}
 
